@@ -85,6 +85,32 @@ Fixpoint walk (fuel : nat) (visited : list str) (cur : str) (target : keypath) :
       end
   end.
 
+(** the arguments of a foreign key are resolved too *)
+Definition resolve_args (rec : list (str * keypath) -> str -> pv -> res pv) (stack : list (str * keypath)) (L : str)
+           (args : list (str * pv)) : res (list (str * pv)) :=
+  fold_right (fun '(k, a) acc => bind (rec stack L a) (fun a' => bind acc (fun r => Ok ((k, a') :: r)))) (Ok []) args.
+
+(** resolve_foreign_key_inner: lookup in [L]; an explicit default restarts once in the locale the
+    inherits walk designates ([n] bounds the restarts: the walk never returns a locale whose value is
+    an explicit default, except the default locale itself, which is an error) *)
+Fixpoint look (rec : list (str * keypath) -> str -> pv -> res pv) (n : nat) (stack : list (str * keypath))
+         (target : keypath) (args : list (str * pv)) (L : str) : res pv :=
+  match get_value_at vals L target with
+  | None => Err E_MissingForeignKey
+  | Some NDefault =>
+      if str_eqb L dflt then Err E_ExplicitDefaultInDefault
+      else match n with
+           | O => OutOfFuel
+           | S n' => look rec n' stack target args (walk (S (length inherits)) [L] L target)
+           end
+  | Some (NSub _) => bind (resolve_args rec stack L args) (fun _ => Err E_InvalidForeignKey)
+  | Some (NVal T) =>
+      if on_stack L target stack then Err E_RecursiveForeignKey
+      else
+        bind (rec ((L, target) :: stack) L T) (fun T' =>
+        bind (resolve_args rec stack L args) (fun args' => Ok (populate args' T')))
+  end.
+
 (** resolve_foreign_key on a value: every foreign key replaced by the populated target value.
     [stack]: values whose traversal is in progress (a borrowed RefCell up the call stack). *)
 Fixpoint resolve (fuel : nat) (stack : list (str * keypath)) (L : str) (v : pv) : res pv :=
@@ -97,28 +123,7 @@ Fixpoint resolve (fuel : nat) (stack : list (str * keypath)) (L : str) (v : pv) 
       | PBloc l =>
           bind (fold_right (fun x acc => bind (resolve f stack L x) (fun x' => bind acc (fun r => Ok (x' :: r)))) (Ok []) l)
                (fun l' => Ok (PBloc l'))
-      | PForeign ns p args =>
-          let target := (ns, p) in
-          let fix look (n : nat) (L : str) : res pv :=
-            match get_value_at vals L target with
-            | None => Err E_MissingForeignKey
-            | Some NDefault =>
-                if str_eqb L dflt then Err E_ExplicitDefaultInDefault
-                else match n with
-                     | O => OutOfFuel
-                     | S n' => look n' (walk (S (length inherits)) [L] L target)
-                     end
-            | Some (NSub _) =>
-                bind (fold_right (fun '(k, a) acc => bind (resolve f stack L a) (fun a' => bind acc (fun r => Ok ((k, a') :: r)))) (Ok []) args)
-                     (fun _ => Err E_InvalidForeignKey)
-            | Some (NVal T) =>
-                if on_stack L target stack then Err E_RecursiveForeignKey
-                else
-                  bind (resolve f ((L, target) :: stack) L T) (fun T' =>
-                  bind (fold_right (fun '(k, a) acc => bind (resolve f stack L a) (fun a' => bind acc (fun r => Ok ((k, a') :: r)))) (Ok []) args)
-                       (fun args' => Ok (populate args' T')))
-            end in
-          look 2%nat L
+      | PForeign ns p args => look (resolve f) 2 stack (ns, p) args L
       end
   end.
 End Resolve.
